@@ -5,6 +5,7 @@
 //! item->worker assignment and visiting orders from `shuttle::rand`. One case = one
 //! seeded batch of executions, exactly repeatable.
 
+mod c04t;
 mod c18par;
 mod c19;
 
@@ -27,6 +28,7 @@ fn main() {
     }
     let opts = Opts::from_args(&args[2..]);
     let code = match args[1].as_str() {
+        "c04-recompress-sched" => run(c04t::C04T, &opts),
         "c19-finish" => run(c19::C19, &opts),
         "c18-mphf-par" => run(c18par::MphfPar, &opts),
         _ => {
